@@ -5,17 +5,17 @@ import os
 
 HERE = os.path.dirname(os.path.dirname(os.path.abspath(__file__)))
 
-CHECKS = {
-    'C10': dict(
-        text='Theorems (Coq, closed under the global context) about an executable model of Cursor/Column: for every '
-             'row type, result and call history the delivered rows are a prefix of the result in order, rownumber/rowcount/'
-             'exhaustion laws, execute resets, Column indexing/slicing. The model is tied to cursor.py by running the same '
-             'call histories on real cursors and on the model (vm_compute) on every run.',
-        note='Trusted: Coq kernel + vm_compute; hand-written model validated by differential runs (random histories, '
-             'thorough: all histories <=4 over 11 ops); Python list/iterator semantics modelled.',
-        technique='Coq theorems over a state-machine model + model/implementation correspondence by vm_compute',
-        ref='6 C10'),
-}
+def load_checks():
+    d = os.path.join(HERE, 'harness', 'meta')
+    out = {}
+    for f in sorted(os.listdir(d)):
+        if f.endswith('.json'):
+            with open(os.path.join(d, f)) as fh:
+                out[f[:-5]] = json.load(fh)
+    return out
+
+
+CHECKS = load_checks()
 
 NOT_YET = {}
 
